@@ -1,5 +1,5 @@
 """C03 — periodic neighbourhood queries return exactly the atoms within the radius (crystal/crystal.py, util/num.py)."""
-import ast
+import ast, os
 import contextlib
 import io
 import itertools
@@ -334,6 +334,70 @@ def build(ctx):
             ctx.prove(lab + "/lower", hy, lo_i <= n[i], clause="an image within the radius has cell index n_i >= the lower bound passed to slab", replay=extent_replay, fn=f_air)
             ctx.prove(lab + "/upper", hy, n[i] <= hi_i, clause="... and n_i <= the upper bound passed to slab", replay=extent_replay, fn=f_air)
     ctx.attempt("crystal.Crystal.atoms_in_radius/ensures/extent.complete", ob_extent, replay=extent_replay, fn=f_air)
+
+    # ------------------------------------------------------------------ P: multi-centre queries (two centres, symbolic): bounds cover the extent of EVERY centre
+    def ob_multi(fsrc, label, setup):
+        """Execute the body of a multi-centre query up to its call of slab; `setup(I, cr)` returns (frame env, list of fractional centres as z3 term triples)."""
+        I.pc, I.decisions, I.dpos, I.new_alts, I.cur_safety, I.fresh_count, I.depth, I.no_fork = [rad >= 0] + inv_hyps, [], 0, [], [], 0, 1, 0
+        ucell = shell(I, "chmpy.crystal.unit_cell", "UnitCell", direct=farr(D), inverse=farr(V), lengths=[z3.Real(f"len{i}") for i in range(3)])
+        cr = Obj(CRcls, {"unit_cell": ucell})
+        env0, centres = setup(I, cr)
+        fr = Frame(mod, dict(env0, self=cr, radius=rad), CRcls, fname=fsrc.qualname, fnode=fsrc.node)
+        Evs = [z3.Real(f"E{i}") for i in range(3)]
+        A2s = [sum(V[k][i] * V[k][i] for k in range(3)) for i in range(3)]
+        found_E = None
+        bounds = None
+
+        def run(stmts):
+            nonlocal found_E, bounds
+            for st in stmts:
+                if isinstance(st, ast.Expr) and isinstance(st.value, ast.Constant):
+                    continue
+                if "self.slab(" in ast.unparse(st):
+                    call = [c_ for c_ in ast.walk(st) if isinstance(c_, ast.Call) and ast.unparse(c_.func) == "self.slab"][0]
+                    bounds = I.eval(call.keywords[0].value if call.keywords else call.args[0], fr)
+                    return True
+                I.exec_stmt(st, fr)
+                if found_E is None:
+                    for name_, val_ in list(fr.env.items()):
+                        if name_ in ("self", "radius") or name_ in env0 or not isinstance(val_, NDArr) or val_.shape != (3,):
+                            continue
+                        cells = val_.flat()
+                        if any(type(c_).__name__ == "InfVal" for c_ in cells):
+                            continue
+                        if all(_quick_valid([rad >= 0] + [h for h in I.pc if "py_sqrt" in str(h)], z3.And(z(cells[i]) * z(cells[i]) == rad * rad * A2s[i], z(cells[i]) >= 0)) for i in range(3)):
+                            found_E = name_
+                            fr.env[name_] = farr(Evs)
+                            break
+            return False
+        reached = run(fsrc.node.body)
+        if not reached or found_E is None or bounds is None:
+            ctx.notes.append(f"C03 {label}: extent local / slab call not recognised; decided by the brute-force stand-in")
+            return
+        (hmin, kmin, lmin), (hmax, kmax, lmax) = bounds
+        lo, hi = [hmin, kmin, lmin], [hmax, kmax, lmax]
+        for ci, fc in enumerate(centres):
+            for i in range(3):
+                t = z3.Real(f"t{i}")
+                if os.environ.get("PYVC_DEBUG") and ci == 0 and i == 0:
+                    print("GOAL", z3.simplify(z(hi[i])), "||", z3.simplify(z(lo[i])))
+                hy = [Evs[i] >= 0, z3.And(p[i] >= 0, p[i] < 1), t == p[i] + z3.ToReal(n[i]) - fc[i], -Evs[i] <= t, t <= Evs[i]]
+                ctx.prove(f"crystal.Crystal.{label}/ensures/extent.complete/centre{ci}/axis{i}", hy, z3.And(z(lo[i]) <= n[i], n[i] <= z(hi[i])),
+                          clause="an image within the radius of THIS centre has its cell index inside the bounds passed to slab (bounds accumulate over all centres)",
+                          replay=extent_replay, fn=fsrc)
+
+    def setup_as(I_, cr):
+        P2 = real_matrix("c", 2, 3)
+        cr.fields["asymmetric_unit"] = shell(I_, "chmpy.crystal.asymmetric_unit", "AsymmetricUnit", positions=farr(P2), elements=[None, None])
+        return {}, [P2[0], P2[1]]
+
+    def setup_me(I_, cr):
+        M2 = real_matrix("m", 2, 3)
+        molobj = shell(I_, "chmpy.core.molecule", "Molecule", positions=farr(M2))
+        fc = [[sum(M2[c_][k] * V[k][i] for k in range(3)) for i in range(3)] for c_ in range(2)]
+        return {"mol": molobj, "threshold": Fraction(1, 1000)}, fc
+    ctx.attempt("crystal.Crystal.atomic_surroundings/ensures/extent.complete", lambda: ob_multi(f_as, "atomic_surroundings", setup_as), replay=extent_replay, fn=f_as)
+    ctx.attempt("crystal.Crystal.molecule_environment/ensures/extent.complete", lambda: ob_multi(f_me, "molecule_environment", setup_me), replay=extent_replay, fn=f_me)
 
     # ------------------------------------------------------------------ F: every query uses the same extent expression
     cf = frames.ClassFrames(mod, "Crystal")
